@@ -503,6 +503,44 @@ def run(chk):
             chk.fail("stale-after-extension:" + name, f"{name}: used in a computation, then extended through its add_* methods: the next computation differs from the one "
                      f"with a freshly built equal object by {np.abs(second - want2).max():.2e}", info)
 
+    # ---- (b5) a process tensor whose tensors are replaced (set_mpo_tensor / set_cap_tensor) after it has been read and used:
+    # every later answer (accessors, dynamics) is that of a freshly built object holding the current tensors ----------------
+    for rank in (3, 4):
+        info = {"modified_after_use": "SimpleProcessTensor", "tensor_rank": rank}
+        chk.search_cases += 1
+        chk.count("modified_after_use")
+        chk.case(info, ("modified", rank))
+        g_ = np.random.default_rng(chk.seed + rank)
+        shp = (lambda a, b: (a, b, 4)) if rank == 3 else (lambda a, b: (a, b, 4, 4))
+        bonds = [1, 2, 2, 1]
+        tens = [g_.normal(size=shp(bonds[k], bonds[k + 1])) + 1j * g_.normal(size=shp(bonds[k], bonds[k + 1])) for k in range(3)]
+        repl = g_.normal(size=shp(2, 2)) + 1j * g_.normal(size=shp(2, 2))
+        caps = [g_.normal(size=(bonds[k],)) + 0j for k in range(4)]
+
+        def build(ts):
+            p_ = oqupy.process_tensor.SimpleProcessTensor(2, dt=0.1)
+            for k, t_ in enumerate(ts):
+                p_.set_mpo_tensor(k, t_)
+            for k, c_ in enumerate(caps):
+                p_.set_cap_tensor(k, c_)
+            return p_
+
+        def use(p_):
+            st_ = np.array(quiet(oqupy.compute_dynamics, oqupy.System(H), initial_state=rho, process_tensor=p_, progress_type="silent").states)
+            return np.concatenate([st_.reshape(-1)] + [np.array(p_.get_mpo_tensor(k)).reshape(-1) for k in range(3)])
+        try:
+            shared = build(tens)
+            first = use(shared)
+            shared.set_mpo_tensor(1, repl)
+            second = use(shared)
+            want1, want2 = use(build(tens)), use(build([tens[0], repl, tens[2]]))
+        except Exception as ex:
+            chk.fail("extended-raises", f"SimpleProcessTensor modified after use raises {ex!r}", info)
+            continue
+        if not np.allclose(first, want1, rtol=0, atol=1e-9) or not np.allclose(second, want2, rtol=0, atol=1e-9):
+            chk.fail("stale-after-extension:SimpleProcessTensor", f"SimpleProcessTensor (rank-{rank} tensors): read and used, then one tensor replaced through set_mpo_tensor: "
+                     f"the next answers differ from those of a freshly built equal object by {np.abs(second - want2).max():.2e}", info)
+
     # ---- (c) re-using objects in several computations = fresh objects ------------------------
     for it in range(6 if thorough else 3):
         c1 = oqupy.PowerLawSD(alpha=0.1, zeta=1, cutoff=3.0, cutoff_type="exponential", temperature=0.1)
